@@ -1283,17 +1283,18 @@ pub fn main(args: Args) {
     run.set_extra("worker_death_culprits", json!(culprits.iter().take(60).collect::<Vec<_>>()));
     sub::cleanup_scratch();
 
-    if args.get("inputs").is_none() {
+    // the floors are those of the quick default budget; smaller development budgets are exempt
+    if args.budget("inputs", 2000, 30_000) >= 2000 {
         run.finish(&[
             ("evaluations", 600),
-            ("parsed", 500),
-            ("reached_and_finished:format", 500),
+            ("parsed", 450),
+            ("reached_and_finished:format", 450),
             ("reached_and_finished:pass1", 450),
             ("reached_and_finished:pass2", 400),
             ("reached_and_finished:emit", 400),
             ("cases_with_error_diagnostics", 150),
             ("cases_clean_and_emitted", 60),
-            ("parsed:token_mutation", 80),
+            ("parsed:token_mutation", 60),
             ("parsed:template", 40),
             ("parsed:deep_nesting", 12),
             ("exceed_limit_diagnostics", 3),
